@@ -360,11 +360,16 @@ theorem from input audio + metadata to file codes.  For every session inside the
 input file content `input` and every block size `≥ 1` (8192 in `OfflineRenderDriver`): reading the file with
 `iter_sample_blocks(blocksize)` (C18's specification), calling `render` once per block and `get_tail` once at the end
 (the C02/C03 renderer model with the overlap-save convolver), scaling, upmixing, monitoring and writing each returned
-block (`FileRender.run`) succeeds; it writes exactly `input.length` frames of `nChannels` samples; frame by frame the
+block (`FileRender.run`) raises no renderer exception and returns the result record `res` (the output file has then
+been written completely; the real `run` afterwards raises "error: output overloaded" iff `res.failed`); it writes exactly
+`input.length` frames of `nChannels` samples; frame by frame the
 written codes are `quantise M` of the exact frames `exactOut` = `gain · U · RenderSpec.out(input)` — the renderer's
-block structure, the convolver's latency compensation and the tail have disappeared —; and (`M = 2^(bits−1) − 1 > 0`)
+block structure, the convolver's latency compensation and the tail have disappeared —; (`M > 0`; the code uses
+`M = 2^(bits−1) − 1` of the INPUT file's bit depth, which this model does not carry: `M` is a free parameter here)
 every written code is within one quantisation step of the exact sample times `M` when that sample is inside full scale,
-and is `±M` (clipped) otherwise. -/
+and is `±M` (clipped) otherwise; and **the run fails (`res.failed`, the real `run` raises) exactly when
+`fail_on_overload` is set and some sample of `exactOut` exceeds full scale in magnitude** (the property's last
+sentence, about the specified output of the whole input rather than about renderer blocks). -/
 theorem file_samples_eq_spec {n : Nat} (c : Cfg (Earverif.Stream.Frame n))
     (objs : List (ObjItem (Earverif.Stream.Frame n))) (dss : List (DsItem (Earverif.Stream.Frame n)))
     (hoas : List (HoaItem (Earverif.Stream.Frame n)))
@@ -376,9 +381,11 @@ theorem file_samples_eq_spec {n : Nat} (c : Cfg (Earverif.Stream.Frame n))
       res.frames = (exactOut c objs dss hoas chans speakers gain input).map (·.map (quantise M)) ∧
       res.frames.length = input.length ∧ res.nChannels = nChannels chans speakers ∧
       (∀ fr ∈ res.frames, fr.length = res.nChannels) ∧
-      ∀ fr ∈ exactOut c objs dss hoas chans speakers gain input, ∀ x ∈ fr,
+      (∀ fr ∈ exactOut c objs dss hoas chans speakers gain input, ∀ x ∈ fr,
         (-1 ≤ x → x ≤ 1 → ((quantise M x : Int) : Rat) - x * M < 1 ∧ x * M - ((quantise M x : Int) : Rat) < 1) ∧
-        (1 < x → quantise M x = M) ∧ (x < -1 → quantise M x = -M) := by
+        (1 < x → quantise M x = M) ∧ (x < -1 → quantise M x = -M)) ∧
+      (res.failed = true ↔
+        f = true ∧ ∃ fr ∈ exactOut c objs dss hoas chans speakers gain input, ∃ x ∈ fr, 1 < rabs x) := by
   have hparts := (fileParts_spec blocksize hbs input).1
   have hout := render_refines_spec_os_ok c objs dss hoas hok.ok hok.taps_ne hok.index (fileParts blocksize input)
   rw [hparts] at hout
@@ -398,11 +405,8 @@ theorem file_samples_eq_spec {n : Nat} (c : Cfg (Earverif.Stream.Frame n))
       (exactOut c objs dss hoas chans speakers gain input).map (·.map (quantise M)) := by
     simp only [run, exactOut]
     rw [outBlock_flatten, hflat]
-  refine ⟨run chans speakers gain f M (List.map (fun x => List.map rowList x) os ++ [List.map rowList tail]),
-    by simp only [runFile, hcalls], hframes, ?_, rfl, ?_, ?_⟩
-  · rw [hframes]
-    simp [exactOut, outBlock, RenderSpec.out]
-  · apply run_channel_count
+  have hlen : ∀ b ∈ List.map (fun x => List.map rowList x) os ++ [List.map rowList tail], ∀ fr ∈ b,
+      fr.length = chans.length := by
     intro b hb fr hfr
     rw [List.mem_append] at hb
     rcases hb with hb | hb
@@ -412,10 +416,57 @@ theorem file_samples_eq_spec {n : Nat} (c : Cfg (Earverif.Stream.Frame n))
     · rw [List.mem_singleton] at hb
       subst hb
       exact hrow tail fr hfr
+  refine ⟨run chans speakers gain f M (List.map (fun x => List.map rowList x) os ++ [List.map rowList tail]),
+    by simp only [runFile, hcalls], hframes, ?_, rfl, ?_, ?_, ?_⟩
+  · rw [hframes]
+    simp [exactOut, outBlock, RenderSpec.out]
+  · exact run_channel_count _ _ _ _ _ _ hlen
   · intro fr _ x _
     refine ⟨fun h1 h2 => ?_, (quantise_clips M x).1, (quantise_clips M x).2⟩
     obtain ⟨q1, q2, -, -⟩ := quantise_within_step M hM x h1 h2
     exact ⟨q1, q2⟩
+  · rw [run_failed_iff_samples _ _ _ _ _ _ hlen, hflat]
+    rfl
+
+/-- **A speakers file without a `speakers` list = no speakers file, end to end** (`eye_identity` composed).
+`load_output_layout` returns `n_channels = len(layout.channels)` and `upmix = eye(n_channels)` for such a file
+(`load_output_layout_spec`) and `upmix = None` without a file; `runFile`'s `speakers = none` stands for both. For every
+session inside `SessionWF`, every input and block size: on the blocks `outs` the renderer returns for the file, the
+result record computed with `some (eye n)` (`runU`) IS the one `runFile … none …` returns, and the exact output frames
+with `some (eye n)` are `exactOut … none …` of `file_samples_eq_spec`. -/
+theorem file_eye_upmix_same {n : Nat} (c : Cfg (Earverif.Stream.Frame n))
+    (objs : List (ObjItem (Earverif.Stream.Frame n))) (dss : List (DsItem (Earverif.Stream.Frame n)))
+    (hoas : List (HoaItem (Earverif.Stream.Frame n)))
+    (hok : SessionWF c objs dss hoas) (input : List (List Rat)) (blocksize : Nat) (hbs : 1 ≤ blocksize)
+    (chans : List String) (hn : chans.length = n) (gain : Rat) (f : Bool) (M : Int) :
+    ∃ outs, renderCalls (mRenderOS c) (mTailOS c) (RStateOS.init c objs dss hoas) (fileParts blocksize input) = .ok outs ∧
+      runFile (mRenderOS c) (mTailOS c) (RStateOS.init c objs dss hoas) blocksize chans none gain f M input =
+        .ok (run chans none gain f M outs) ∧
+      runU chans.length (some (eye chans.length)) gain f M outs = run chans none gain f M outs ∧
+      outBlock gain (some (eye chans.length)) ((RenderSpec.out c objs dss hoas input).map rowList) =
+        exactOut c objs dss hoas chans none gain input := by
+  have hparts := (fileParts_spec blocksize hbs input).1
+  have hout := render_refines_spec_os_ok c objs dss hoas hok.ok hok.taps_ne hok.index (fileParts blocksize input)
+  rw [hparts] at hout
+  obtain ⟨st, os, st'', tail, hrun, htail, -⟩ := renderAllOS_parts c objs dss hoas _ _ hout
+  have hcalls := renderCalls_runOS c _ _ _ _ _ _ hrun htail
+  have hrow : ∀ (l : List (Earverif.Stream.Frame n)), ∀ fr ∈ l.map rowList, fr.length = chans.length := by
+    intro l fr hfr
+    rw [List.mem_map] at hfr
+    obtain ⟨r, -, rfl⟩ := hfr
+    simp [rowList, hn]
+  refine ⟨_, hcalls, by simp only [runFile, hcalls], run_eye_upmix chans gain f M _ ?_, ?_⟩
+  · intro b hb fr hfr
+    rw [List.mem_append] at hb
+    rcases hb with hb | hb
+    · rw [List.mem_map] at hb
+      obtain ⟨l, -, rfl⟩ := hb
+      exact hrow l fr hfr
+    · rw [List.mem_singleton] at hb
+      subst hb
+      exact hrow tail fr hfr
+  · rw [outBlock_eye gain chans.length _ (hrow _)]
+    rfl
 
 /-- **File in, file out: frames out = frames in, through the real call sequence** (corollary of
 `file_samples_eq_spec`). -/
@@ -529,5 +580,18 @@ output gain 1/2, no speakers file): `input·(1, 1/2)·gain·32767`, truncated. -
 example : (runFile (mRenderOS exCfgF) (mTailOS exCfgF) (RStateOS.init exCfgF [] exDssF []) 2 ["M+030", "M-030"] none
     (1/2) false 32767 [[1], [-1/2], [1/4]]).toOption.map (·.frames) =
     some [[16383, 8191], [-8191, -4095], [4095, 2047]] := by decide +kernel
+
+/-- The failure conjunct of `file_samples_eq_spec` evaluated: a loud frame (`3·(1, 1/2)·1/2 = (3/2, 3/4)`) with
+`fail_on_overload` fails, the same file without the option does not, a quiet file with the option does not; the
+overloaded sample is written clipped. -/
+example : ((runFile (mRenderOS exCfgF) (mTailOS exCfgF) (RStateOS.init exCfgF [] exDssF []) 2 ["M+030", "M-030"] none
+      (1/2) true 32767 [[1], [3], [1/4]]).toOption.map fun r => (r.failed, r.frames)) =
+    some (true, [[16383, 8191], [32767, 24575], [4095, 2047]]) := by decide +kernel
+example : (runFile (mRenderOS exCfgF) (mTailOS exCfgF) (RStateOS.init exCfgF [] exDssF []) 2 ["M+030", "M-030"] none
+      (1/2) false 32767 [[1], [3], [1/4]]).toOption.map (·.failed) = some false := by decide +kernel
+example : (runFile (mRenderOS exCfgF) (mTailOS exCfgF) (RStateOS.init exCfgF [] exDssF []) 2 ["M+030", "M-030"] none
+      (1/2) true 32767 [[1], [-1/2], [1/4]]).toOption.map (·.failed) = some false := by decide +kernel
+example : ∃ fr ∈ exactOut exCfgF [] exDssF [] ["M+030", "M-030"] none (1/2) [[1], [3], [1/4]], ∃ x ∈ fr, 1 < rabs x :=
+  ⟨[3/2, 3/4], by decide +kernel, 3/2, by decide +kernel, by decide +kernel⟩
 
 end Earverif.FileRender
